@@ -53,6 +53,7 @@ type Outcome struct {
 	HarnessErr string         `json:"harness_err,omitempty"`
 	Crashed    string         `json:"crashed,omitempty"` // filled by the parent when the worker died / hung
 	Extra      map[string]int `json:"extra,omitempty"`   // additional counters (interleavings etc.)
+	PrevSeeds  []uint64       `json:"prev_seeds,omitempty"` // seeds the dying worker process had run before (crash triage)
 }
 
 // RunCtx is handed to a check for one run.
